@@ -34,7 +34,7 @@ PROPS['C19'] = dict(
 PROPS['C01'] = dict(
     level_text='Theorems state that on every trie reachable by any subscribe/unsubscribe history a Walk reports exactly the data stored under the filters that MQTT-match the topic (mmatch), independent of the other filters; the Go trie is tied to the model exhaustively for <=3/4 levels over {a,b,c,+,#,""} and by seeded histories.',
     level_note='Trusted: Coq kernel + vm_compute; harness/emitter/evaluator. Topics with a # level are outside the theorem (MQTT forbids them in PUBLISH).',
-    theorems=['walk_matches', 'reachable_tries_wf', 'walk_history_spec', 'match_independent', 'deliver_exact', 'deliver_to_no_other', 'by_pattern_exact', 'by_pattern_once'],
+    theorems=['walk_matches', 'reachable_tries_wf', 'walk_history_spec', 'match_independent', 'deliver_exact', 'deliver_to_no_other', 'by_pattern_exact', 'by_pattern_once', 'publish_step_writes_exactly', 'publish_step_writes_exactly_q0'],
     families=[dict(name='tries', corr='Tries', runs=[('x01', 1, 1), ('rsub', 300, 5000)]),
               dict(name='crdt', corr='DState', runs=[('subs', 200, 3000)]),
               dict(name='broker', corr='Broker', runs=[('route', 40, 500), ('pipeline', 24, 300)], par=8)],
